@@ -305,6 +305,25 @@ func gen(rng *rand.Rand, tier core.Tier, emit core.Emit) {
 		}
 		emitDec(emit, d, s, cuts, order, ds)
 	}
+	// (1b) heavy retransmission: every fragment but the last arrives many times before the last one does (33 … 100 datagrams
+	// in all): the response is complete when every fragment has arrived, however many datagrams that took
+	for i := 0; i < 4*k; i++ {
+		d := []string{"gs1", "am", "amq", "amn"}[rng.Intn(4)]
+		s, cuts, ds := encoded(rng, d, 2+rng.Intn(4), rng.Intn(3), 3+rng.Intn(3))
+		n := len(ds)
+		if n < 2 {
+			continue
+		}
+		var order []int
+		reps := 11 + rng.Intn(15)
+		for r := 0; r < reps; r++ {
+			for j := 0; j < n-1; j++ {
+				order = append(order, j)
+			}
+		}
+		order = append(order, n-1)
+		emitDec(emit, d, s, cuts, order, ds)
+	}
 	// (2) all permutations for 2..4 fragments (5 in the thorough tier)
 	for i := 0; i < 5*k; i++ {
 		d := []string{"gs1", "am", "amq", "amn"}[rng.Intn(4)]
